@@ -8,7 +8,7 @@ PROP = "C18"
 HOSTILE_PATHS = ["../escape.txt", "../../escape.txt", "a/../../escape.txt", "/tmp/verif-escape-abs.txt", "sub/../../escape_dir/x", "..",
                  "../proj-sibling/victim.txt", "./../escape.txt", "a/b/../../../escape.txt", "../outer_sentinel.txt"]
 HOSTILE_ENTRY = ["../escape.txt", "../../escape2.txt", "sub/../../../escape3.txt", "/tmp/verif-escape-entry.txt", "..", "a/b", "./x", "../outer_sentinel.txt",
-                 "../proj-sibling/victim.txt", ""]
+                 "../proj-sibling/victim.txt", "", "../../proj-sibling/victim.txt"]
 
 
 def tree_state(top, exclude):
@@ -101,7 +101,9 @@ def hostile_manifests(sb, R, rng, tier):
     """a cache manifest whose entry would land outside the artifact's directory"""
     viol = []
     for entry in HOSTILE_ENTRY:
-        for variant in ("path", "key+path", "nested"):
+        for variant in ("path", "key+path", "nested", "dirchain"):
+            if variant == "dirchain" and entry not in ("..", "../..", "./x", "a/b"):
+                continue
             proj = sb.project()
             root = proj.root
             os.makedirs(os.path.join(root, "data", "sub"))
@@ -125,7 +127,16 @@ def hostile_manifests(sb, R, rng, tier):
                 return d
             key = entry if variant != "path" else "innocent.txt"
             child = b'{"checksum":' + gojson_str(blob.encode()) + b',"path":' + gojson_str(entry.encode()) + b'}'
-            if variant == "nested":
+            if variant == "dirchain":
+                # the hostile name as a DIRECTORY entry, chained: data -> entry/ -> entry/ -> pwned.txt
+                leaf = b'{"path":' + gojson_str(entry.encode()) + b',"contents":{"pwned.txt":{"checksum":"' + blob.encode() + b'","path":"pwned.txt"}}}\n'
+                d3 = put(leaf)
+                mid = b'{"path":' + gojson_str(entry.encode()) + b',"contents":{' + gojson_str(entry.encode()) + b':{"checksum":"' + d3.encode() + \
+                    b'","path":' + gojson_str(entry.encode()) + b',"is-dir":true}}}\n'
+                d2 = put(mid)
+                man = b'{"path":"data","contents":{' + gojson_str(entry.encode()) + b':{"checksum":"' + d2.encode() + b'","path":' + \
+                    gojson_str(entry.encode()) + b',"is-dir":true}}}\n'
+            elif variant == "nested":
                 inner = b'{"path":"sub","contents":{' + gojson_str(key.encode()) + b':' + child + b'}}\n'
                 di = put(inner)
                 man = b'{"path":"data","contents":{"sub":{"checksum":"' + di.encode() + b'","path":"sub","is-dir":true}}}\n'
@@ -141,6 +152,13 @@ def hostile_manifests(sb, R, rng, tier):
             for cmd in (["status"], ["checkout"], ["checkout", "--copy"], ["push"], ["fetch"], ["pull"], ["commit"]):
                 rc, so, se = proj.dud(cmd, cwd=root)
                 rcs.append((" ".join(cmd), rc))
+            if variant == "path":
+                # the recorded (hostile) manifest as the OLD manifest of a commit: the workspace has a file under the innocent key
+                os.makedirs(os.path.join(root, "data"), exist_ok=True)
+                open(os.path.join(root, "data", "innocent.txt"), "w").write("aaa")
+                for cmd in (["commit", "--copy"], ["commit"]):
+                    rc, so, se = proj.dud(cmd, cwd=root)
+                    rcs.append((" ".join(cmd) + " (workspace present)", rc))
             after = sb.outside(proj)
             R.count("manifest-%s-%s" % (variant, entry), True)
             if after != before:
